@@ -1,5 +1,8 @@
 (* C12: comment rules (runner.go:runCommentRules + handleCommentMatch). The regexp engine is an oracle: for every rule
-   the caller supplies what FindStringSubmatchIndex returned on comment.Text (None = no match) and SubexpNames. *)
+   the caller supplies what FindStringSubmatchIndex returned on comment.Text (None = no match; the FLAT index vector, as
+   Go returns it) and SubexpNames; Text.Matches filters consult a second oracle (pattern, text) -> verdict.
+   The match data `m` of the rule loop is an explicit loop variable (run_loop): where it is (re)initialised is a
+   parameter that is read off the source on every run. *)
 From Coq Require Import List ZArith Lia Bool Arith.
 From RG.Base Require Import Outcome GoInt GoSlice.
 From RG.Regex Require Import Utf8.
@@ -7,20 +10,67 @@ From RG.Engine Require Import TruncateSpec RenderSpec.
 Import ListNotations.
 Local Open Scope Z_scope.
 
+(* Where() expressions over comment captures *)
+Inductive cfilter :=
+| FTrue
+| FTextEq (v lit : bytes)          (* m[v].Text == "lit" *)
+| FTextNe (v lit : bytes)          (* m[v].Text != "lit" *)
+| FTextEqVar (v w : bytes)         (* m[v].Text == m[w].Text *)
+| FTextNeVar (v w : bytes)
+| FTextMatches (v pat : bytes)     (* m[v].Text.Matches(`pat`) *)
+| FNot (f : cfilter)
+| FAnd (f g : cfilter)
+| FOr (f g : cfilter).
+
 Record crule := {
   c_names : list bytes;               (* regexp.SubexpNames(): index 0 is "", unnamed groups are "" *)
   c_groups : bool;                    (* goCommentRule.captureGroups = regexpHasCaptureGroups(pattern) *)
-  c_filter : option (bytes * bytes);  (* Where(m["name"].Text == "lit") *)
+  c_filter : cfilter;
   c_rule : mrule
 }.
 
 Definition is_empty (b : bytes) : bool := match b with [] => true | _ => false end.
+Definition dollar2 : bytes := [36; 36].
+
+(* gogrep.MatchData.CapturedByName: "$$" is the whole match, otherwise the FIRST capture of that name *)
+Definition var_node (v : bytes) (whole : mnode) (caps : list (bytes * mnode)) : option mnode :=
+  if bytes_eqb v dollar2 then Some whole else captured_by_name v caps.
+(* filterParams.nodeText(subNode(v)): an unbound name is a nil node and has the empty text *)
+Definition var_text (v : bytes) (whole : mnode) (caps : list (bytes * mnode)) : bytes :=
+  match var_node v whole caps with Some nd => n_text nd | None => [] end.
+
+(* the match data of runCommentRules: m.match.Capture and m.match.Node *)
+Record mdata := { md_caps : list (bytes * mnode); md_node : option mnode }.
+Definition md_zero : mdata := {| md_caps := []; md_node := None |}.     (* `var m matchData` *)
+
+(* a finite regexp oracle for Text.Matches: (pattern, text, verdict) triples supplied with each case *)
+Definition table_oracle (tbl : list (bytes * bytes * bool)) (pat txt : bytes) : option bool :=
+  match find (fun x => bytes_eqb (fst (fst x)) pat && bytes_eqb (snd (fst x)) txt) tbl with
+  | Some x => Some (snd x)
+  | None => None
+  end.
+
+(* handleCommentMatch's report: unlike handleMatch, a Suggest template always yields a Suggestion (possibly with an
+   empty replacement: the span is deleted) *)
+Definition mk_creport (r : mrule) (l : Z) (whole : mnode) (caps : list (bytes * mnode)) : option mreport :=
+  match (match r_loc r with None => Some whole | Some v => var_node v whole caps end) with
+  | None => None
+  | Some node =>
+      Some {| rep_pos := n_pos node; rep_end := n_end node;
+              rep_msg := render_msg (Some l) (ccaps_of caps) (n_text whole) (n_fix whole) (r_msg r);
+              rep_sugg := match r_sugg r with
+                          | [] => None
+                          | tpl => Some (n_pos node, n_end node, render_msg None (ccaps_of caps) (n_text whole) (n_fix whole) tpl)
+                          end;
+              rep_line := r_line r |}
+  end.
 
 Section Run.
 Variable in_range : Z -> Z -> bytes -> outcome bool.   (* nodeText's in-range test (regenerated; see C03) *)
+Variable re_match : bytes -> bytes -> option bool.      (* Text.Matches oracle: pattern, text *)
 Variable l : Z.                                         (* TruncateLen *)
 Variable src : bytes.                                   (* the file's bytes *)
-Variable off : Z.                                       (* file offset of comment.Pos() *)
+Variable off : Z.                                       (* file.Offset(comment.Pos()) *)
 Variable text : bytes.                                  (* comment.Text as go/parser delivers it *)
 
 (* &ast.Comment{Slash: file.Pos(b + off), Text: text[b:e]} together with the text nodeText yields for it *)
@@ -30,50 +80,101 @@ Definition cnode (b e : Z) : outcome mnode :=
   bind (node_text in_range src from (from + len t) t) (fun shown =>
   Ok {| n_pos := from; n_end := from + len t; n_text := shown; n_fix := false |})).
 
-Fixpoint group_caps_from (i : nat) (names : list bytes) (idx : list (Z * Z)) : outcome (list (bytes * mnode)) :=
+(* for i, name := range SubexpNames(): resultIndex := i*2; beginPos, endPos := result[resultIndex+0], result[resultIndex+1] *)
+Fixpoint group_caps_from (i : nat) (names : list bytes) (res : list Z) : outcome (list (bytes * mnode)) :=
   match names with
   | [] => Ok []
   | name :: rest =>
-      bind (group_caps_from (S i) rest idx) (fun tl =>
-      if (i =? 0)%nat || is_empty name then Ok tl
-      else match nth_error idx i with
-           | None => Panic PIndex                         (* result[i*2] out of range *)
-           | Some (b, e) =>
-               if (b <? 0) || (e <? 0)
-               then bind (cnode 0 0) (fun nd => Ok ((name, nd) :: tl))   (* group did not participate: empty node at the comment *)
-               else bind (cnode b e) (fun nd => Ok ((name, nd) :: tl))
-           end)
+      if (i =? 0)%nat || is_empty name then group_caps_from (S i) rest res
+      else
+        let ri := Z.of_nat i * 2 in
+        bind (index res (ri + 0)) (fun b =>
+        bind (index res (ri + 1)) (fun e =>
+        bind (if (b <? 0) || (e <? 0) then cnode 0 0     (* group did not participate: empty node at the comment *)
+              else cnode b e) (fun nd =>
+        bind (group_caps_from (S i) rest res) (fun tl => Ok ((name, nd) :: tl)))))
   end.
 
-Definition group_caps (names : list bytes) (idx : list (Z * Z)) : outcome (list (bytes * mnode)) := group_caps_from 0 names idx.
+Definition group_caps (names : list bytes) (res : list Z) : outcome (list (bytes * mnode)) := group_caps_from 0 names res.
 
-Definition accept (r : crule) (caps : list (bytes * mnode)) : bool :=
-  match c_filter r with
-  | None => true
-  | Some (name, want) => match captured_by_name name caps with Some nd => bytes_eqb (n_text nd) want | None => false end
+Fixpoint eval_filter (f : cfilter) (whole : mnode) (caps : list (bytes * mnode)) : outcome bool :=
+  match f with
+  | FTrue => Ok true
+  | FTextEq v lit => Ok (bytes_eqb (var_text v whole caps) lit)
+  | FTextNe v lit => Ok (negb (bytes_eqb (var_text v whole caps) lit))
+  | FTextEqVar v w => Ok (bytes_eqb (var_text v whole caps) (var_text w whole caps))
+  | FTextNeVar v w => Ok (negb (bytes_eqb (var_text v whole caps) (var_text w whole caps)))
+  | FTextMatches v pat => match re_match pat (var_text v whole caps) with Some b => Ok b | None => Panic PExplicit end
+  | FNot g => bind (eval_filter g whole caps) (fun b => Ok (negb b))
+  | FAnd g h => bind (eval_filter g whole caps) (fun b => if b : bool then eval_filter h whole caps else Ok false)
+  | FOr g h => bind (eval_filter g whole caps) (fun b => if b : bool then Ok true else eval_filter h whole caps)
   end.
 
-(* one rule on one comment: None = the rule does not report (no match / filter rejects) *)
-Definition try_rule (r : crule) (m : option (list (Z * Z))) : outcome (option mreport) :=
-  match m with
-  | None => Ok None
-  | Some idx =>
-      match nth_error idx 0 with
-      | None => Panic PIndex
-      | Some (r0, r1) =>
-          bind (if c_groups r then group_caps (c_names r) idx else Ok []) (fun caps =>
-          bind (cnode r0 r1) (fun whole =>
-          if accept r caps then Ok (mk_report (c_rule r) l whole caps) else Ok None))
+(* the part of the loop body between `var m matchData` and the call of handleCommentMatch: this rule's named groups are
+   APPENDED to m.match.Capture, m.match.Node is set (both paths: FindStringSubmatchIndex / FindStringIndex) *)
+Definition fill (m0 : mdata) (r : crule) (res : list Z) : outcome mdata :=
+  bind (if c_groups r then group_caps (c_names r) res else Ok []) (fun caps =>
+  bind (index res 0) (fun r0 =>
+  bind (index res 1) (fun r1 =>
+  bind (cnode r0 r1) (fun whole =>
+  Ok {| md_caps := md_caps m0 ++ caps; md_node := Some whole |})))).
+
+(* handleCommentMatch: filter on the match data, then the report; None = rejected (the loop goes on) *)
+Definition handle (r : crule) (m : mdata) : outcome (option mreport) :=
+  match md_node m with
+  | None => Panic PNilDeref
+  | Some whole =>
+      bind (eval_filter (c_filter r) whole (md_caps m)) (fun ok =>
+      if ok : bool then Ok (mk_creport (c_rule r) l whole (md_caps m)) else Ok None)
+  end.
+
+(* runCommentRules with the match data as an explicit loop variable. fresh_each = true: `var m matchData` is a statement
+   of the loop body (every rule starts from the zero value); false: declared once before the loop and carried along. *)
+Fixpoint run_loop (fresh_each : bool) (carried : mdata) (rules : list (crule * option (list Z))) : outcome (option mreport) :=
+  match rules with
+  | [] => Ok None
+  | (r, m) :: t =>
+      let m0 := if fresh_each then md_zero else carried in
+      match m with
+      | None => run_loop fresh_each m0 t                      (* result == nil: continue *)
+      | Some res =>
+          bind (fill m0 r res) (fun md =>
+          bind (handle r md) (fun out =>
+          match out with
+          | Some rep => Ok (Some rep)                         (* accept: break *)
+          | None => run_loop fresh_each md t
+          end))
       end
   end.
 
-(* runCommentRules: rules in load order; the first one that accepts reports and ends the loop *)
-Fixpoint run_comment_rules (rules : list (crule * option (list (Z * Z)))) : outcome (option mreport) :=
+(* one rule on one comment, as a function of this rule and ITS OWN submatch indices only *)
+Definition try_rule (r : crule) (m : option (list Z)) : outcome (option mreport) :=
+  match m with
+  | None => Ok None
+  | Some res => bind (fill md_zero r res) (handle r)
+  end.
+
+(* rules in load order; the first one that accepts reports and ends the loop *)
+Fixpoint run_comment_rules (rules : list (crule * option (list Z))) : outcome (option mreport) :=
   match rules with
   | [] => Ok None
   | (r, m) :: t =>
       bind (try_rule r m) (fun res => match res with Some rep => Ok (Some rep) | None => run_comment_rules t end)
   end.
+
+(* ------------------------------------------------------------------ per-rule freshness of the match data *)
+(* with the declaration inside the loop body nothing of an earlier (matched but rejected) rule reaches a later one:
+   whatever the loop variable holds on entry, each rule is judged on its own submatches *)
+Theorem run_loop_fresh carried rules : run_loop true carried rules = run_comment_rules rules.
+Proof.
+  revert carried. induction rules as [|[r m] t IH]; intros carried; [reflexivity|].
+  cbn [run_loop run_comment_rules]. unfold try_rule. destruct m as [res|]; cbn [bind]; [|apply IH].
+  destruct (fill md_zero r res) as [md|w]; cbn [bind]; [|reflexivity].
+  destruct (handle r md) as [[rep|]|w]; cbn [bind]; try reflexivity. apply IH.
+Qed.
+
+Corollary match_data_fresh c1 c2 rules : run_loop true c1 rules = run_loop true c2 rules.
+Proof. now rewrite !run_loop_fresh. Qed.
 
 (* ------------------------------------------------------------------ first accepting rule wins *)
 Theorem first_comment_rule_wins rules rep :
@@ -97,6 +198,23 @@ Proof.
   intros H. constructor; auto.
 Qed.
 
+(* the report of rule k depends only on rule k and rule k's own submatches: it is try_rule of that pair, whatever the
+   other rules are, whatever they matched, and whatever the loop variable held before *)
+Theorem report_from_own_submatches carried rules rep :
+  run_loop true carried rules = Ok (Some rep) ->
+  exists k r res, nth_error rules k = Some (r, Some res) /\ try_rule r (Some res) = Ok (Some rep) /\
+    forall j p, (j < k)%nat -> nth_error rules j = Some p -> try_rule (fst p) (snd p) = Ok None.
+Proof.
+  rewrite run_loop_fresh. intros H.
+  destruct (first_comment_rule_wins rules rep H) as (pre & r & m & post & -> & Ht & Hpre).
+  destruct m as [res|]; [|discriminate].
+  exists (length pre), r, res. split; [|split].
+  - rewrite nth_error_app2, Nat.sub_diag by lia. reflexivity.
+  - exact Ht.
+  - intros j p Hj Hn. rewrite nth_error_app1 in Hn by exact Hj.
+    rewrite Forall_forall in Hpre. apply Hpre. eapply nth_error_In; exact Hn.
+Qed.
+
 (* ------------------------------------------------------------------ spans and texts, when comment.Text IS the comment's source *)
 Hypothesis in_range_spec : forall from to s,
   in_range from to s = Ok ((0 <=? from) && (from <? len s) && ((0 <=? to) && (to <=? len s))).
@@ -104,7 +222,7 @@ Hypothesis off_ok : 0 <= off.
 Hypothesis text_is_source : sub src off (off + len text) = text.     (* no byte was stripped by the scanner *)
 Hypothesis text_in_file : off + len text <= len src.
 Hypothesis text_nonempty : 0 < len text.
-Variable idx0 : list (Z * Z).                           (* submatch index pairs of the rule under consideration *)
+Variable res0 : list Z.                                 (* submatch index vector of the rule under consideration *)
 
 Lemma firstn_firstn_le {A} (a b : nat) (x : list A) : (a <= b)%nat -> firstn a (firstn b x) = firstn a x.
 Proof. intros H. rewrite firstn_firstn. f_equal. lia. Qed.
@@ -142,26 +260,36 @@ Proof.
     rewrite src_sub by lia. reflexivity.
 Qed.
 
+Lemma index_nth (s : list Z) i x : nth_error s i = Some x -> index s (Z.of_nat i) = Ok x.
+Proof.
+  intros H. unfold index. assert (i < length s)%nat by (apply nth_error_Some; congruence).
+  replace ((0 <=? Z.of_nat i) && (Z.of_nat i <? len s)) with true by (unfold len; lia).
+  rewrite Nat2Z.id, H. reflexivity.
+Qed.
+
 (* comment_span_exact: the reported node covers exactly the bytes of the match, inside the comment, and `$$` is
    the matched text; a Suggest replaces exactly that span *)
-Theorem comment_span_exact r idx r0 r1 rep :
+Theorem comment_span_exact r res r0 r1 rep :
   r_loc (c_rule r) = None ->
-  nth_error idx 0 = Some (r0, r1) -> 0 <= r0 -> r0 <= r1 -> r1 <= len text ->
-  try_rule r (Some idx) = Ok (Some rep) ->
+  nth_error res 0 = Some r0 -> nth_error res 1 = Some r1 -> 0 <= r0 -> r0 <= r1 -> r1 <= len text ->
+  try_rule r (Some res) = Ok (Some rep) ->
   rep_pos rep = off + r0 /\ rep_end rep = off + r1 /\
   off <= rep_pos rep /\ rep_end rep <= off + len text /\
   sub src (rep_pos rep) (rep_end rep) = sub text r0 r1 /\
   (forall f t s, rep_sugg rep = Some (f, t, s) -> f = off + r0 /\ t = off + r1).
 Proof.
-  intros Hloc Hidx H0 H01 H1. unfold try_rule. rewrite Hidx.
-  destruct (if c_groups r then group_caps (c_names r) idx else Ok []) as [caps|w]; cbn [bind]; [|discriminate].
-  rewrite cnode_exact by lia. cbn [bind].
-  destruct (accept r caps); [|discriminate]. intros [= Hrep].
-  unfold mk_report in Hrep. rewrite Hloc in Hrep. injection Hrep as <-. cbn.
+  intros Hloc Hi0 Hi1 H0 H01 H1. unfold try_rule, fill.
+  destruct (if c_groups r then group_caps (c_names r) res else Ok []) as [caps|w]; cbn [bind]; [|discriminate].
+  pose proof (index_nth res 0 r0 Hi0) as E0. pose proof (index_nth res 1 r1 Hi1) as E1.
+  change (Z.of_nat 0) with 0 in E0. change (Z.of_nat 1) with 1 in E1. rewrite E0, E1. cbn [bind].
+  rewrite cnode_exact by lia. cbn [bind]. unfold handle. cbn [md_node md_caps app].
+  match goal with |- context [eval_filter ?f ?w ?c] => destruct (eval_filter f w c) as [[|]|?] end; cbn [bind]; try discriminate.
+  intros [= Hrep].
+  unfold mk_creport in Hrep. rewrite Hloc in Hrep. injection Hrep as <-. cbn.
   repeat split; try lia.
   - apply src_sub; lia.
-  - destruct (match r_sugg (c_rule r) with [] => [] | _ => _ end); congruence.
-  - destruct (match r_sugg (c_rule r) with [] => [] | _ => _ end); congruence.
+  - destruct (r_sugg (c_rule r)); congruence.
+  - destruct (r_sugg (c_rule r)); congruence.
 Qed.
 
 (* groups_interpolate: a named group is bound to its own submatch (by regexp group index, so unnamed groups in front
@@ -177,58 +305,82 @@ Lemma bytes_eqb_neq (a b : bytes) : a <> b -> bytes_eqb a b = false.
 Proof. intros H. destruct (bytes_eqb a b) eqn:E; [|reflexivity]. apply bytes_eqb_eq in E. contradiction. Qed.
 
 Lemma group_caps_from_spec names : forall k caps p name b e,
-  group_caps_from k names idx0 = Ok caps ->
+  group_caps_from k names res0 = Ok caps ->
   NoDup (filter (fun n => negb (is_empty n)) names) ->
   nth_error names p = Some name -> (k + p <> 0)%nat -> name <> [] ->
-  nth_error idx0 (k + p) = Some (b, e) ->
+  nth_error res0 (2 * (k + p)) = Some b -> nth_error res0 (2 * (k + p) + 1) = Some e ->
   (b < 0 \/ e < 0 \/ (0 <= b /\ b <= e /\ e <= len text)) ->
   exists nd, captured_by_name name caps = Some nd /\ group_node_ok nd b e.
 Proof.
-  induction names as [|n rest IH]; intros k caps p name b e Hg Hnd Hn Hk Hne Hidx Hb.
+  induction names as [|n rest IH]; intros k caps p name b e Hg Hnd Hn Hk Hne Hib Hie Hb.
   - destruct p; discriminate.
   - cbn [group_caps_from] in Hg.
-    destruct (group_caps_from (S k) rest idx0) as [tl|w] eqn:Etl; cbn [bind] in Hg; [|discriminate].
     destruct p as [|p].
     + (* this very group *)
-      cbn in Hn. injection Hn as ->. rewrite Nat.add_0_r in Hidx, Hk.
+      cbn in Hn. injection Hn as ->. rewrite Nat.add_0_r in Hib, Hie, Hk.
       assert (Hk0 : (k =? 0)%nat = false) by (apply Nat.eqb_neq; exact Hk).
       assert (He : is_empty name = false) by (destruct name; [contradiction|reflexivity]).
-      rewrite Hk0, He in Hg. cbn [orb] in Hg. rewrite Hidx in Hg.
+      rewrite Hk0, He in Hg. cbn [orb] in Hg.
+      replace (Z.of_nat k * 2 + 0) with (Z.of_nat (2 * k)) in Hg by lia.
+      replace (Z.of_nat k * 2 + 1) with (Z.of_nat (2 * k + 1)) in Hg by lia.
+      rewrite (index_nth _ _ _ Hib), (index_nth _ _ _ Hie) in Hg. cbn [bind] in Hg.
       unfold group_node_ok. destruct ((b <? 0) || (e <? 0)) eqn:Eneg.
-      * rewrite cnode_exact in Hg by lia. cbn [bind] in Hg. injection Hg as <-.
+      * rewrite cnode_exact in Hg by lia. cbn [bind] in Hg.
+        destruct (group_caps_from (S k) rest res0) as [tl|w]; cbn [bind] in Hg; [|discriminate]. injection Hg as <-.
         eexists. cbn [captured_by_name]. rewrite bytes_eqb_refl. split; [reflexivity|]. cbn. split; [reflexivity|lia].
       * assert (0 <= b /\ b <= e /\ e <= len text) as (Hb0 & Hbe & Hel) by lia.
-        rewrite cnode_exact in Hg by lia. cbn [bind] in Hg. injection Hg as <-.
+        rewrite cnode_exact in Hg by lia. cbn [bind] in Hg.
+        destruct (group_caps_from (S k) rest res0) as [tl|w]; cbn [bind] in Hg; [|discriminate]. injection Hg as <-.
         eexists. cbn [captured_by_name]. rewrite bytes_eqb_refl. split; [reflexivity|]. cbn. auto.
     + (* a later group *)
-      cbn in Hn. replace (k + S p)%nat with (S k + p)%nat in Hidx, Hk by lia.
+      cbn in Hn. replace (k + S p)%nat with (S k + p)%nat in Hib, Hie, Hk by lia.
       assert (Hnd' : NoDup (filter (fun n0 => negb (is_empty n0)) rest)).
       { cbn [filter] in Hnd. destruct (negb (is_empty n)); [now inversion Hnd|exact Hnd]. }
-      destruct (IH (S k) tl p name b e Etl Hnd' Hn Hk Hne Hidx Hb) as (nd & Hc & Hok).
-      exists nd. split; [|exact Hok].
       destruct ((k =? 0)%nat || is_empty n) eqn:Eskip.
-      * injection Hg as <-. exact Hc.
+      * exact (IH (S k) caps p name b e Hg Hnd' Hn Hk Hne Hib Hie Hb).
       * apply orb_false_elim in Eskip as [_ Hen].
         assert (Hneq : n <> name).
         { intros ->. cbn [filter] in Hnd. rewrite Hen in Hnd. cbn [negb] in Hnd. inversion Hnd as [|? ? Hnotin _]; subst.
           apply Hnotin. apply filter_In. split; [eapply nth_error_In; exact Hn|]. now rewrite Hen. }
-        destruct (nth_error idx0 k) as [[b' e']|]; [|discriminate].
-        destruct ((b' <? 0) || (e' <? 0));
-          (destruct (cnode _ _) as [nd'|w]; cbn [bind] in Hg; [|discriminate]; injection Hg as <-;
-           cbn [captured_by_name]; rewrite bytes_eqb_neq by exact Hneq; exact Hc).
+        destruct (index res0 (Z.of_nat k * 2 + 0)) as [b'|w]; cbn [bind] in Hg; [|discriminate].
+        destruct (index res0 (Z.of_nat k * 2 + 1)) as [e'|w]; cbn [bind] in Hg; [|discriminate].
+        destruct (if (b' <? 0) || (e' <? 0) then cnode 0 0 else cnode b' e') as [nd'|w]; cbn [bind] in Hg; [|discriminate].
+        destruct (group_caps_from (S k) rest res0) as [tl|w] eqn:Etl; cbn [bind] in Hg; [|discriminate]. injection Hg as <-.
+        destruct (IH (S k) tl p name b e Etl Hnd' Hn Hk Hne Hib Hie Hb) as (nd & Hc & Hok).
+        exists nd. split; [|exact Hok].
+        cbn [captured_by_name]. rewrite bytes_eqb_neq by exact Hneq. exact Hc.
 Qed.
 
 Theorem groups_interpolate names caps i name b e :
-  group_caps names idx0 = Ok caps ->
+  group_caps names res0 = Ok caps ->
   NoDup (filter (fun n => negb (is_empty n)) names) ->
   nth_error names i = Some name -> i <> 0%nat -> name <> [] ->
-  nth_error idx0 i = Some (b, e) ->
+  nth_error res0 (2 * i) = Some b -> nth_error res0 (2 * i + 1) = Some e ->
   (b < 0 \/ e < 0 \/ (0 <= b /\ b <= e /\ e <= len text)) ->
   exists nd, captured_by_name name caps = Some nd /\ group_node_ok nd b e.
 Proof. intros. eapply (group_caps_from_spec names 0%nat); eauto. Qed.
 
+(* filters_see_group_texts: what a Where() expression reads for a bound group is the node groups_interpolate speaks of *)
+Theorem filter_reads_group_text whole caps name nd :
+  name <> dollar2 -> captured_by_name name caps = Some nd -> var_text name whole caps = n_text nd.
+Proof.
+  intros Hd Hc. unfold var_text, var_node. rewrite bytes_eqb_neq by exact Hd. now rewrite Hc.
+Qed.
+
 (* capture_fast_path_safe: a pattern without capture groups has SubexpNames() = [""]; taking the FindStringIndex
    path (no captures) then yields the same match data as the submatch path would *)
-Theorem capture_fast_path_safe idx : group_caps [[]] idx = Ok [].
+Theorem capture_fast_path_safe res : group_caps [[]] res = Ok [].
 Proof. reflexivity. Qed.
+
+(* with no group at all the two paths of `fill` agree, whatever the flag says *)
+Theorem fast_path_same_fill m0 names msg res :
+  Forall (fun n => n = []) names ->
+  fill m0 {| c_names := names; c_groups := true; c_filter := FTrue; c_rule := msg |} res =
+  fill m0 {| c_names := names; c_groups := false; c_filter := FTrue; c_rule := msg |} res.
+Proof.
+  intros Hn. unfold fill. cbn [c_groups c_names].
+  assert (H : forall k, group_caps_from k names res = Ok []).
+  { induction Hn as [|n t -> _ IH]; intros k; [reflexivity|]. cbn [group_caps_from is_empty]. rewrite orb_true_r. apply IH. }
+  unfold group_caps. now rewrite H.
+Qed.
 End Run.
